@@ -345,7 +345,9 @@ func c17Batcher(c *Ctx, bt *ssa.Function) {
 			fmt.Sprintf("after this publish the same batch can be published again (no fresh batch before the next receive)=%v; payload is the batch encoding=%v; TTL from configuration=%v", resent, okPayload, okTTL))
 		// timer flush only when non-empty
 		cs := p.CondsAt(in.Block())
-		if hasCond(cs, func(k Cond) bool { return k.Atom.Op == "EQ" && k.Atom.Has(func(x *Term) bool { return x.Op == "select" }) && (k.Atom.Args[0].Name == "1" || k.Atom.Args[1].Name == "1") && k.Pol }) {
+		if hasCond(cs, func(k Cond) bool {
+			return k.Atom.Op == "EQ" && k.Atom.Has(func(x *Term) bool { return x.Op == "select" }) && (k.Atom.Args[0].Name == "1" || k.Atom.Args[1].Name == "1") && k.Pol
+		}) {
 			nonEmpty := hasCond(cs, func(k Cond) bool {
 				return k.Pol && k.Atom.Op == "LT" && k.Atom.Args[0].Name == "0" && k.Atom.Args[1].Op == "builtin" && k.Atom.Args[1].Name == "len" ||
 					!k.Pol && k.Atom.Op == "EQ" && k.Atom.Has(func(x *Term) bool { return x.Op == "builtin" && x.Name == "len" }) && (k.Atom.Args[0].Name == "0" || k.Atom.Args[1].Name == "0")
